@@ -56,7 +56,7 @@ def check(pm: ProgramModel, ctx: Ctx) -> None:
         "must equal the one written (constraints up to logical equivalence, decided by truth "
         "table); cycles are fixpoints; returned = written; reader output well-formed.")
     ctx.not_decided = ["documents not produced by the writer (C09)",
-                       "interactions between dimensions beyond the combined abstract model"]
+                       "three-way and higher interactions between dimensions (every two-way combination is in the pairwise family)"]
     mb = ModelBuilder(pm)
     cd = Codec(pm, ctx, W, R, "C07", diff_opts={"ctc_compare": "semantic", "ctc_names": False},
                wsetup=install_xml, rsetup=install_xml)
